@@ -529,7 +529,6 @@ theorem degenerate_complete_at_guess_kernel (es : List (Entry α)) (g : List (Na
 
 /-- The kinds whose residual and Jacobian code contain no degeneracy guard. -/
 def neverDegenerate : Constraint α → Bool
-  | .circleTangentToCircle .. => true
   | .verticalDistance .. => true
   | .horizontalDistance .. => true
   | .vertical .. => true
@@ -544,7 +543,7 @@ def neverDegenerate : Constraint α → Bool
   | .midpoint .. => true
   | _ => false
 
-/-- For the unguarded kinds (circle–circle tangency, vertical/horizontal distance, vertical,
+/-- For the unguarded kinds (vertical/horizontal distance, vertical,
 horizontal, `Parallel`, `Perpendicular`, fixed, scalar equality, coincident points, circle radius,
 `Arc`, midpoint) neither evaluation ever raises the degeneracy flag, at any assignment. -/
 theorem never_degenerate_kinds (c : Constraint α) (h : neverDegenerate c = true) (v : Nat → α) :
